@@ -167,9 +167,12 @@ def _havoc(proc):
         setattr(d.characteristics, "_" + f, fresh())
     for b in ("photon", "pixel", "signal", "charge"):
         a = getattr(d, b)._array
+        if a is None:  # a copy that lost a bucket: the caller-side obligations report it
+            continue
         a += 1.5  # in place
         a[0, 0] = fresh()
-    d.image._array += 1
+    if d.image._array is not None:
+        d.image._array += 1
     d._memory["trap"] *= 2
     d._memory["counter"] = vx.integer("havoc_counter")
     d._memory["new_entry"] = 1
@@ -357,7 +360,7 @@ def replay(oid, kwargs, model, data):
         s["temp"] = dd.environment._temperature
         s.update({f: getattr(dd.characteristics, "_" + f) for f in ("quantum_efficiency", "full_well_capacity")})
         for b in ("photon", "pixel", "signal", "image", "charge"):
-            s[b] = getattr(dd, b)._array.tolist()
+            s[b] = None if getattr(dd, b)._array is None else getattr(dd, b)._array.tolist()
         s["mem"] = {k: (v.tolist() if hasattr(v, "tolist") else v) for k, v in dd._memory.items()}
         s["trapped"] = dd._persistence.trapped_charge_array.tolist()
         for grp in ("photon_collection", "charge_generation"):
@@ -384,8 +387,10 @@ def replay(oid, kwargs, model, data):
     # havoc the copy
     dd = new.detector
     for b in ("photon", "pixel", "signal", "charge"):
-        getattr(dd, b)._array += 1.5
-    dd.image._array += 1
+        if getattr(dd, b)._array is not None:
+            getattr(dd, b)._array += 1.5
+    if dd.image._array is not None:
+        dd.image._array += 1
     dd._memory["trap"] *= 2
     dd._memory["counter"] = -1
     dd._memory["new"] = 1
@@ -434,6 +439,12 @@ def _replay_run_mutating(kwargs):
                                  photon_collection=[ModelFunction(func="vxprobes.probe", name="m1", arguments={"level": 0.1, "opt": [0.2], "cfg": {"a": 1}})])
         det = make_ccd(2, 2)
         det._memory["counter"] = 0
+        # the caller's detector already holds data (e.g. from an earlier exposure)
+        det.photon.array = np.full((2, 2), 11.0)
+        det.pixel.array = np.full((2, 2), 12.0)
+        det.signal.array = np.full((2, 2), 13.0)
+        det.image.array = np.full((2, 2), 14, dtype=np.uint16)
+        det.charge.add_charge_array(np.full((2, 2), 15.0))
         obs = Observation(parameters=[ParameterValues(key="pipeline.photon_collection.m1.arguments.level", values=[1.0, 2.0, 3.0])], readout=Readout(times=[1.0, 2.0][: kwargs["n"]]))
         pyxel.run_mode(mode=obs, detector=det, pipeline=pipe)
     finally:
@@ -442,5 +453,10 @@ def _replay_run_mutating(kwargs):
     caller_cfg = pipe.photon_collection.m1.arguments["cfg"]
     n = kwargs["n"]
     first_calls = seen[::n]  # first step of every run
+    contents = {b: (None if getattr(det, b)._array is None else np.asarray(getattr(det, b)._array).tolist()) for b in ("photon", "pixel", "signal", "image", "charge")}
+    want = {"photon": 11.0, "pixel": 12.0, "signal": 13.0, "image": 14, "charge": 15.0}
+    lost = {b: v for b, v in contents.items() if v != np.full((2, 2), want[b]).tolist()}
+    if lost:
+        return True, {"caller_detector_contents_changed": lost}
     bad = caller_opt != [0.2] or caller_cfg != {"a": 1} or det._memory.get("counter") != 0 or any(c[0] != [0.2, 99] or c[1] != {"a": 2} or c[2] != 0 for c in first_calls)
     return bad, {"caller_opt_after": caller_opt, "caller_cfg_after": caller_cfg, "caller_memory_counter": det._memory.get("counter"), "first_call_of_each_run_saw": first_calls}
